@@ -291,7 +291,12 @@ func run01(c drv.Case, res *drv.Result) {
 	}
 	r := rand.New(rand.NewSource(p.ProgSeed))
 	ctx := context.Background()
-	readers := []cafs.Fs{fs, fs2}
+	// a third one that reads without verifying hashes (--verify-hash=false): the same bytes must come back
+	fs3, err := cafsh.NewFs(store, uint32(p.Leaf), append(append([]cafs.Option{}, opts...), cafs.VerifyHash(false))...)
+	if err != nil {
+		panic(err)
+	}
+	readers := []cafs.Fs{fs, fs2, fs3}
 
 	expectAt := func(off int64, n int) []byte {
 		if off >= int64(len(content)) {
@@ -311,7 +316,7 @@ func run01(c drv.Case, res *drv.Result) {
 	}
 	for i, bs := range bufs {
 		bs := bs
-		f := readers[i%2]
+		f := readers[(i+int(p.ProgSeed&3))%3]
 		name := "Read"
 		if !style(res, name, lc, func() {
 			rd, e := f.Get(ctx, put.Key)
@@ -428,7 +433,7 @@ func run01(c drv.Case, res *drv.Result) {
 	// --- WriteTo
 	for i, kind := range []string{"plain", "writerat"} {
 		kind := kind
-		f := readers[(i+1)%2]
+		f := readers[(i+1+int(p.ProgSeed&3))%3]
 		if !style(res, "WriteTo-"+kind, lc, func() {
 			rd, e := f.Get(ctx, put.Key)
 			if e != nil {
